@@ -22,7 +22,10 @@ EVIDENCE = {
     'rule': 'Each run sends up to 30 CPX packets in each direction over an in-memory socket (all targets, functions, '
             'last-packet flag values, payload 0..1000 bytes, frames with an unsupported version or illegal target / function '
             'codes in between), either through CPX + SocketTransport with one consumer thread per function, or tunnelling '
-            'CRTP packets through TcpDriver; the receive side is fragmented by a seeded chunk-size policy.',
+            'CRTP packets through TcpDriver; the receive side is fragmented by a seeded chunk-size policy.  The uplink '
+            'packets are sent by 1-3 application threads (CRTP through TcpDriver.send_packet and raw CPX packets through '
+            'cpx.sendPacket on the same link); socket.send() is a scheduling point and the byte stream on the wire must '
+            'parse into an interleaving of the per-thread frame sequences.',
     'directed': 'every composition of the receive chunk sizes for a 12-byte stream carrying three packets (2^11 = 2048 '
                 'fragmentations; every 8th in the quick tier)',
     'real': ['CPXPacket', 'CPXRouter (thread)', 'CPX', 'SocketTransport', 'TcpDriver', '_CPXReceiveThread', 'CRTPPacket'],
